@@ -38,6 +38,12 @@ RCX_WY_SP = [('open',), ('rc', 'x'), ('w', 'y'), ('sp',), ('commit',),
 WY_SP_RCX = [('open',), ('w', 'y'), ('sp',), ('rc', 'x'), ('commit',),
              ('close',)]
 RX_WX = [('open',), ('r', 'x'), ('w', 'x'), ('commit',), ('close',)]
+# a declared dependency that is modified tentatively and rolled back: it is
+# still a dependency (without / with a savepoint that stored the change)
+RCX_WX_RB_WY = [('open',), ('rc', 'x'), ('spk',), ('w', 'x'), ('rb',),
+                ('w', 'y'), ('commit',), ('close',)]
+RCX_WX_SP_RB_WY = [('open',), ('rc', 'x'), ('spk',), ('w', 'x'), ('sp',),
+                   ('rb',), ('w', 'y'), ('commit',), ('close',)]
 
 IK = [('open',), ('inc', 'k'), ('commit',), ('close',)]
 IK_RETRY = [('open',), ('inc', 'k'), ('commit',), ('inc', 'k'), ('commit',),
@@ -63,13 +69,15 @@ HARNESSES = {
 CATALOG = {
     'wx': WX, 'wx-retry': WX_RETRY, 'wxy': WXY, 'wy2': WY2,
     'rcx-wy': RCX_WY, 'rcx-wy-sp': RCX_WY_SP, 'wy-sp-rcx': WY_SP_RCX,
-    'rx-wx': RX_WX, 'ik': IK, 'ik-retry': IK_RETRY, 'ik-wx': IK_WX,
+    'rx-wx': RX_WX, 'rcx-wx-rb-wy': RCX_WX_RB_WY,
+    'rcx-wx-sp-rb-wy': RCX_WX_SP_RB_WY, 'ik': IK, 'ik-retry': IK_RETRY, 'ik-wx': IK_WX,
 }
 MERGE = ('k',)
 # quick tier: the merging programs against each other and against a plain
 # writer of the object they also write (thorough: every pair)
 MERGE_PAIRS = {('ik', 'ik'), ('ik', 'ik-retry'), ('ik', 'ik-wx'),
-               ('ik-wx', 'ik-wx'), ('ik-wx', 'wx')}
+               ('ik-wx', 'ik-wx'), ('ik-wx', 'wx'),
+               ('rcx-wx-rb-wy', 'wx'), ('rcx-wx-sp-rb-wy', 'wx')}
 KINDS = ('F', 'M', 'DMM', 'DFM')
 
 
@@ -137,6 +145,10 @@ def judge_events(w):
         elif k == 'inc':
             incs.setdefault((ev[1], ev[2]), []).append(
                 (ev[3], ev[4], ev[5]))      # name, bit, serial loaded
+        elif k == 'rollback':
+            # writes since the savepoint never happened
+            for nm in ev[3]:
+                writes.get((ev[1], ev[2]), {}).pop(nm, None)
         elif k == 'readcurrent':
             rcs.setdefault((ev[1], ev[2]), {})[ev[3]] = ev[4]
         elif k == 'commit-start':
@@ -390,7 +402,8 @@ def run(rep, tier, seed, workers):
     tasks = []
     for kind in KINDS:
         for pair in itertools.combinations_with_replacement(names, 2):
-            if tier == 'quick' and any(n.startswith('ik') for n in pair) \
+            if tier == 'quick' and any(n.startswith(('ik', 'rcx-wx-'))
+                                       for n in pair) \
                     and pair not in MERGE_PAIRS:
                 continue
             tasks.append((MOD, 'seq_task', (kind, pair)))
